@@ -1,5 +1,6 @@
 """C10 — query results do not depend on the query history (index transparency)."""
 import json
+import os
 import shutil
 import xml.etree.ElementTree as ET
 
@@ -12,7 +13,7 @@ from checks.C11 import (CAL, NS, UTC, compf_json, compf_xml, gen_component, gen_
 import urllib.parse
 
 AUDIT = "Audit/C10.lean"
-MODULE = "Xandikos.Theorems.C10"
+MODULE = "Xandikos.Theorems.C10Ical"
 
 
 def make_filter(cf):
@@ -218,6 +219,30 @@ PROBES += [
       ("z1.ics", ical([{"type": "VTODO", "lines": ["UID:z1", "SUMMARY:y"]}]))],
      {"name": "VCALENDAR", "comps": [{"name": "VTODO", "props": [{"name": "X-EMPTY", "nd": True}]}]}),
 ]
+PROBES += [
+    # text values that need escaping in the iCalendar form: the index keeps the escaped form
+    ("escaped-text",
+     [("e.ics", ical([{"type": "VEVENT", "lines": ["UID:e", "SUMMARY:Lunch\\, with Bob", "DTSTART" + tval(0, "utc")]}])),
+      ("f.ics", ical([{"type": "VEVENT", "lines": ["UID:f", "SUMMARY:Lunch", "DTSTART" + tval(0, "utc")]}]))],
+     {"name": "VCALENDAR", "comps": [{"name": "VEVENT", "props": [{"name": "SUMMARY", "tms": [{"text": "Lunch, with Bob"}]}]}]}),
+    ("escaped-text-backslash",
+     [("e.ics", ical([{"type": "VEVENT", "lines": ["UID:e", "DESCRIPTION:C:\\\\temp\\;x", "DTSTART" + tval(0, "utc")]}]))],
+     {"name": "VCALENDAR", "comps": [{"name": "VEVENT", "props": [{"name": "DESCRIPTION", "tms": [{"text": "C:\\temp;x"}]}]}]}),
+    ("escaped-category",
+     [("c.ics", ical([{"type": "VEVENT", "lines": ["UID:c", "SUMMARY:x", "CATEGORIES:x\\,y,z", "DTSTART" + tval(0, "utc")]}]))],
+     {"name": "VCALENDAR", "comps": [{"name": "VEVENT", "props": [{"name": "CATEGORIES", "tms": [{"text": "y"}]}]}]}),
+    ("escaped-category-2",
+     [("c.ics", ical([{"type": "VEVENT", "lines": ["UID:c", "SUMMARY:x", "CATEGORIES:x\\,y,z", "DTSTART" + tval(0, "utc")]}]))],
+     {"name": "VCALENDAR", "comps": [{"name": "VEVENT", "props": [{"name": "CATEGORIES", "tms": [{"text": "x,y"}]}]}]}),
+    # (a text with a backslash followed by N, or a bare CR, does not survive icalendar's own escaping — the
+    # hypothesis `Clean` of Ical/EscapeProofs.lean; such a value never reaches the index through a request,
+    # because members are stored re-serialised: the stored value is already the lossy one, on both paths)
+    # a VFREEBUSY that gives its busy time as FREEBUSY periods only (no DTSTART/DTEND)
+    ("bare-freebusy",
+     [("fb.ics", ical([{"type": "VFREEBUSY", "lines": ["UID:fb", "FREEBUSY:%s/%s" % (tval(0, "utc")[1:], tval(1, "utc")[1:])]}])),
+      ("fc.ics", ical([{"type": "VFREEBUSY", "lines": ["UID:fc", "FREEBUSY:%s/%s" % (tval(6, "utc")[1:], tval(7, "utc")[1:])]}]))],
+     {"name": "VCALENDAR", "comps": [{"name": "VFREEBUSY", "tr": (0, 2)}]}),
+]
 # (probe, members, filter, default time zone of the query): a zone whose offset is zero on that day
 TZ_PROBES = [
     ("tzid-at-offset-zero",
@@ -286,6 +311,48 @@ def probes(chk):
             shutil.rmtree(root, ignore_errors=True)
 
 
+def index_model_tie(chk, n):
+    """Tie of the index-side model (Ical/Index.lean) to the code: real index_keys / get_indexes /
+    check_from_indexes / check against the model's, on generated calendars and filters inside and
+    outside the class of `check_from_indexes_eq_check`; and, independently of the model, the real
+    index path against the real direct path on every input of that class."""
+    import idxtie
+    stat, bad = idxtie.run_tie(n, chk.seed * 7919 + 17)
+    for field in ("keys", "values", "idx", "naive"):
+        for b in bad.get(field, [])[:3]:
+            chk.broke("correspondence index-side model (%s)" % field,
+                      "real %s = %r, model %r" % (field, b["real"], b["model"]), b)
+    for b in bad.get("inside-class-divergence", []):
+        chk.violation("C10:index-path-differs-from-direct-evaluation-on-the-proved-class",
+                      "check_from_indexes = %r but check = %r on a calendar/filter of the class the theorem covers"
+                      % (b["idx"], b["naive"]), dict(b, level="function"))
+    for i in range(stat["inside-class"]):
+        chk.case(("index-tie", "inside", i))
+    for i in range(stat["outside-class"]):
+        chk.case(("index-tie", "outside", i), nontrivial=False)
+    chk.extra["index_model_tie"] = {k: stat[k] for k in sorted(stat)}
+    chk.extra["index_model_tie"]["icalendar_round_trip"] = idxtie.RT
+
+
+def escape_tie(chk, n):
+    """Ical/Escape.lean against the code: icalendar's escaping (vText.to_ical) and xandikos'
+    _unescape_text vs their models, and the statement of `unescape_escape` on the real functions"""
+    import subprocess
+    script = os.path.join(os.path.dirname(os.path.dirname(os.path.abspath(__file__))), "pylib", "pylib_escape.py")
+    p = subprocess.run(["/venv/bin/python", script, str(n), str(chk.seed + 20260929)], capture_output=True, text=True,
+                       timeout=1800)
+    stat = {}
+    for ln in p.stdout.splitlines():
+        parts = ln.rsplit(None, 1)
+        if len(parts) == 2 and parts[1].isdigit() and not ln.startswith("DISAGREE"):
+            stat[parts[0].strip()] = int(parts[1])
+    chk.extra["escape_model_tie"] = stat
+    chk.evaluations += stat.get("strings", 0)
+    if p.returncode != 0:
+        dis = [ln for ln in p.stdout.splitlines() if ln.startswith("DISAGREE")]
+        chk.broke("correspondence escape/unescape model", ("; ".join(dis[:3]) or (p.stdout + p.stderr)[-600:])[:1500])
+
+
 def http_histories(chk, n_hist, reps):
     for h in range(n_hist):
         fe = "wsgi" if h % 2 == 0 else "aiohttp"
@@ -338,11 +405,15 @@ def run(chk):
                 "reset and extended, writes and deletes in between, on bare-memory and tree stores through "
                 "Store.iter_with_filter and through REPORT on both front ends; every answer must equal the direct "
                 "evaluation of the filter on the current contents (Lean model of the naive path) and the first answer "
-                "since the last write; deterministic probes replay the recorded findings. non-trivial = more queries "
-                "than the threshold")
+                "since the last write; deterministic probes replay the recorded findings; the index-side model of "
+                "Ical/Index.lean (what check_from_indexes_eq_check is about) is compared with the real index_keys / "
+                "get_indexes / check_from_indexes on generated inputs, and the two real paths with each other on the "
+                "proved class. non-trivial = more queries than the threshold / an input of the proved class")
     chk.lean_obligations(MODULE, AUDIT)
     quick = chk.tier == "quick"
     probes(chk)
+    index_model_tie(chk, 400 if quick else 6000)
+    escape_tie(chk, 1500 if quick else 20000)
     store_histories(chk, 12 if quick else 150, 8)
     http_histories(chk, 2 if quick else 20, 8)
 
